@@ -16,6 +16,7 @@
 (* fc itself, so the Go representation is the transpiler's.                *)
 (***************************************************************************)
 EXTENDS Integers, Sequences, FiniteSets, TLC, Json
+CONSTANT Deep       \* the thorough universe: slices up to length 3
 
 RECURSIVE StructEq(_, _)
 StructEq(a, b) ==
@@ -50,9 +51,10 @@ FewHows(es) == IF es = <<>> THEN {"lit", "nilFilter", "popLastToEmpty", "frtEmpt
 
 Sl(et, E, n, H(_)) == UNION {{<<"sl", et, how, es>> : how \in H(es)} : es \in SeqsUpTo(E, n)}
 
-IntSlices == Sl("int", {I(0), I(1)}, 2, Hows)
+SlLen == IF Deep THEN 3 ELSE 2
+IntSlices == Sl("int", {I(0), I(1)}, SlLen, Hows)
 IntSlicesFew == Sl("int", {I(0), I(1)}, 2, FewHows)
-StrSlices == Sl("string", {S(""), S("a")}, 2, Hows)
+StrSlices == Sl("string", {S(""), S("a")}, SlLen, Hows)
 Tup2s == {<<"tup", <<a, b>>>> : a \in Ints, b \in Strs}
 Tup3s == {<<"tup", <<a, b, c>>>> : a \in {I(0), I(1)}, b \in {I(0), I(1)}, c \in Bools}
 Pts   == {<<"rec", "Pt", <<x, y>>>> : x \in {I(0), I(1)}, y \in {I(0), I(1)}}
@@ -63,8 +65,8 @@ Shapes ==      {<<"uni", "Shape", "Circle", <<r>>>> : r \in {I(0), I(1)}}
           \cup {<<"uni", "Shape", "Poly", <<s>>>> : s \in IntSlicesFew}
           \cup {<<"uni", "Shape", "Unit0", <<>>>>}
 Wraps == {<<"rec", "Wrap", <<i, b>>>> : i \in {I(0), I(1)}, b \in Shapes}
-PtSlices == Sl("Pt", {<<"rec", "Pt", <<I(0), I(1)>>>>, <<"rec", "Pt", <<I(1), I(1)>>>>}, 2, FewHows)
-TupSlices == Sl("tup2", {<<"tup", <<I(0), S("a")>>>>, <<"tup", <<I(1), S("a")>>>>}, 2, FewHows)
+PtSlices == Sl("Pt", {<<"rec", "Pt", <<I(0), I(1)>>>>, <<"rec", "Pt", <<I(1), I(1)>>>>}, SlLen, FewHows)
+TupSlices == Sl("tup2", {<<"tup", <<I(0), S("a")>>>>, <<"tup", <<I(1), S("a")>>>>}, SlLen, FewHows)
 NestedSlices == Sl("[]int", {<<"sl", "int", "lit", <<>>>>, <<"sl", "int", "nilFilter", <<>>>>, <<"sl", "int", "frtEmpty", <<>>>>,
                              <<"sl", "int", "lit", <<I(1)>>>>, <<"sl", "int", "popLast", <<I(1)>>>>,
                              <<"sl", "int", "lit", <<I(0), I(1)>>>>}, 2, FewHows)
